@@ -92,6 +92,8 @@ def impl(c):
         return [0, sorted(topological.find_cycles(tuples, items))]
     except CircularDependencyError:
         return [1]
+    except RecursionError:
+        return [9]
 
 
 def _reach(ts, nodes):
@@ -113,9 +115,24 @@ def _reach(ts, nodes):
     return reach
 
 
+def search_cases(rng, tier):
+    """search phase only: the ordinary families plus deep dependency chains (depth > the interpreter recursion
+    limit), cyclic and acyclic - too slow for the Coq evaluator (the algorithm is cubic on a chain), oracle only"""
+    cases = gen_cases(rng, "quick")
+    for n, cyc in ((1100, True), (1300, False), (1100, True)):
+        ts = [[i, i + 1] for i in range(n - 1)] + ([[n - 1, 0]] if cyc else [])
+        items = list(range(n))
+        rng.shuffle(items)
+        cases.append({"in": [0 if len(cases) % 2 else 2, ts, items if len(cases) % 2 else []], "kind": "deep-chain", "model": False})
+        cases.append({"in": [0, ts, items], "kind": "deep-chain", "model": False})
+    return cases
+
+
 def oracle(c, obs):
     """direct statement of C19 on the implementation's observation"""
     op, ts, items = c["in"]
+    if obs == [9]:
+        return "RecursionError (internal error) instead of a sort result / CircularDependencyError on a chain of %d items" % len(ts)
     if op == 2:
         nodes = {x for e in ts for x in e}
         r = _reach(ts, nodes)
